@@ -1,6 +1,6 @@
 (* Byte lists over N: little-endian images, mod-256 sums, basic list lemmas.
    Model definitions and their characterising lemmas; no property statement lives here. *)
-From Coq Require Import NArith ZArith List Lia Bool.
+From Coq Require Import NArith ZArith List Lia Bool Arith.
 Import ListNotations.
 Open Scope N_scope.
 
@@ -213,3 +213,21 @@ Definition option_bind {A B} (o : option A) (f : A -> option B) : option B :=
 Notation "'do' x <- o ; k" := (option_bind o (fun x => k)) (at level 200, x pattern, o at level 100, k at level 200).
 
 Definition guard (c : bool) : option unit := if c then Some tt else None.
+
+Lemma firstn_le_app w n r : firstn w (le w n ++ r) = le w n.
+Proof.
+  rewrite firstn_app, length_le, Nat.sub_diag. cbn [firstn]. rewrite app_nil_r.
+  rewrite <- (length_le w n) at 1. apply firstn_all.
+Qed.
+
+Lemma skipn_le_app w n r : skipn w (le w n ++ r) = r.
+Proof.
+  rewrite skipn_app, length_le, Nat.sub_diag. cbn [skipn].
+  rewrite <- (length_le w n) at 1. rewrite skipn_all. reflexivity.
+Qed.
+
+Lemma firstn_app_exact {A} (a b : list A) : firstn (length a) (a ++ b) = a.
+Proof. rewrite firstn_app, Nat.sub_diag. cbn [firstn]. rewrite app_nil_r. apply firstn_all. Qed.
+
+Lemma skipn_app_exact {A} (a b : list A) : skipn (length a) (a ++ b) = b.
+Proof. rewrite skipn_app, Nat.sub_diag, skipn_all. reflexivity. Qed.
